@@ -350,6 +350,30 @@ func csrfMain(s *simrt.Sim, info *harness.RunInfo) {
 	case "cookie":
 		cfg.KeyLookup = "cookie:" + cookieName
 	}
+	// an explicitly configured Extractor takes precedence over KeyLookup, which may then be unset,
+	// agree, or name a source nobody reads
+	explicitExtractor := s.Chance(300)
+	if explicitExtractor {
+		switch extractor {
+		case "header":
+			cfg.Extractor = csrf.FromHeader(headerName)
+		case "form":
+			cfg.Extractor = csrf.FromForm("_csrf")
+		case "query":
+			cfg.Extractor = csrf.FromQuery("_csrf")
+		case "param":
+			cfg.Extractor = csrf.FromParam("csrf")
+		case "cookie":
+			cfg.Extractor = csrf.FromCookie(cookieName)
+		}
+		switch s.Draw(3) {
+		case 1:
+			cfg.KeyLookup = ""
+		case 2:
+			cfg.KeyLookup = simrt.PickS(s, "cookie:"+cookieName, "header:X-Other", "query:other")
+		}
+		s.Count("probe_explicit_extractor")
+	}
 	cfg.CookieName = cookieName
 	ngen := 0
 	if customGen {
@@ -413,8 +437,8 @@ func csrfMain(s *simrt.Sim, info *harness.RunInfo) {
 		idle, idleEff = 20*time.Second, 20*time.Second // expiry plays no part in the concurrent histories
 	}
 	cfg.IdleTimeout = idle
-	cfgLine := fmt.Sprintf("faults=%v(get=%d set=%d del=%d) concurrent=%v backend=%s extractor=%s header=%s singleUse=%v idle=%v sessionOnly=%v cookie=%s customGen=%v trusted=%q proxyMode=%d routeLevel=%v trackKeys=%v hostility=%d browsers=%d steps=%d host=%s phase=%d",
-		faults, failGet, failSet, failDel, concurrent, backend, extractor, headerName, singleUse, idle, sessionOnly, cookieName, customGen, trusted, proxyMode, routeLevel, trackKeys, hostility, nb, nsteps, mainHost, phase)
+	cfgLine := fmt.Sprintf("faults=%v(get=%d set=%d del=%d) concurrent=%v backend=%s extractor=%s header=%s singleUse=%v idle=%v sessionOnly=%v cookie=%s customGen=%v trusted=%q proxyMode=%d routeLevel=%v trackKeys=%v hostility=%d browsers=%d steps=%d host=%s phase=%d explicitExtractor=%v keyLookup=%q",
+		faults, failGet, failSet, failDel, concurrent, backend, extractor, headerName, singleUse, idle, sessionOnly, cookieName, customGen, trusted, proxyMode, routeLevel, trackKeys, hostility, nb, nsteps, mainHost, phase, explicitExtractor, cfg.KeyLookup)
 	s.Logf("cfg %s", cfgLine)
 
 	mw := csrf.New(cfg)
